@@ -288,8 +288,19 @@ func c12Oracle(ex *c12Exec, expectBubble bool) []c12Finding {
 				add("pairing", "end-without-begin@"+role(e.Node), fmt.Sprintf("EndEdit without an open BeginEdit: %s", e))
 				continue
 			}
-			top := st[len(st)-1]
-			stacks[e.Node] = st[:len(st)-1]
+			// the open begin this end answers: the most recent one with the same flags (a
+			// node can be told twice that one edit began - as the holder of the leaf an
+			// edit is rooted at and as that leaf selection's parent - and the statement
+			// does not say in which order the two are ended)
+			k := len(st) - 1
+			for j := len(st) - 1; j >= 0; j-- {
+				if st[j].New == e.New && st[j].Delete == e.Delete && st[j].Root == e.Root && st[j].Source == e.Source {
+					k = j
+					break
+				}
+			}
+			top := st[k]
+			stacks[e.Node] = append(append([]simnode.Event(nil), st[:k]...), st[k+1:]...)
 			if top.New != e.New || top.Delete != e.Delete || top.Root != e.Root || top.Source != e.Source {
 				add("pairing", "flags-differ@"+role(e.Node), fmt.Sprintf("EndEdit flags differ from its BeginEdit: begin %s / end %s", top, e))
 			}
@@ -320,7 +331,7 @@ func c12Oracle(ex *c12Exec, expectBubble bool) []c12Finding {
 				failed := false
 				for j := i + 1; j < len(evs); j++ {
 					n := evs[j]
-					if n.Call == "BeginEdit" && n.Source == w.ID && n.Node != w.ID {
+					if n.Call == "BeginEdit" && n.Source == w.ID && !n.Root {
 						if n.Err != "" {
 							failed = true
 						}
@@ -394,6 +405,34 @@ func c12Gen(r *kit.Rng) *c12Scenario {
 	if mode != "from" && mode != "into" {
 		op.Tree, op.List = nil, nil
 	}
+	if mode == "from" && r.Chance(1, 8) {
+		// an edit rooted at a leaf selection: the node holding the leaf (begun twice) and its ancestors
+		var cands []model.Path
+		for _, p := range append([]model.Path{nil}, init.AllPaths()...) {
+			if loc, ok := init.Resolve(p); ok && loc.Tree != nil {
+				for _, c := range loc.Tree.S.DataChildren() {
+					if c.Kind == schema.Leaf && !c.IsKey() && loc.Tree.Has(c.Name) {
+						cands = append(cands, p)
+						break
+					}
+				}
+			}
+		}
+		if len(cands) > 0 {
+			at := cands[r.Intn(len(cands))]
+			loc, _ := init.Resolve(at)
+			var leaves []*schema.Node
+			for _, c := range loc.Tree.S.DataChildren() {
+				if c.Kind == schema.Leaf && !c.IsKey() && loc.Tree.Has(c.Name) {
+					leaves = append(leaves, c)
+				}
+			}
+			lf := leaves[r.Intn(len(leaves))]
+			pt := model.New(loc.Tree.S)
+			pt.Leaf[lf.Name] = model.Value(r, lf, o)
+			op = sess.Op{Kind: r.Pick([]string{"upsert", "update"}), At: at, Leaf: lf.Name, SrcKind: r.Pick([]string{"json", "xml", "mnode"}), Tree: pt}
+		}
+	}
 	outer := ""
 	if mode == "from" && r.Chance(1, 6) {
 		outer = r.Pick([]string{"dump", "trace"})
@@ -448,6 +487,9 @@ func c12Explore(sc *c12Scenario, seed uint64, pairs int, r *kit.Rng) (out RunOut
 	}
 	out.Stats.Inc("store:" + store.KeyName(sc.Store))
 	out.Stats.Inc("op:" + sc.Op.Kind)
+	if sc.Op.Leaf != "" {
+		out.Stats.Inc("probe:edit-rooted-at-a-leaf-selection")
+	}
 	if base.res.Err != nil {
 		out.Stats.Inc("baseline-returned-error")
 	}
